@@ -162,3 +162,5 @@ def error_on_exception(emit):
         emit.error('\n'.join(('%s: error: %s' % err for err in e.errors)))
     except model.ModelError as e:
         emit.error(str(e))
+    except UnicodeDecodeError as e:
+        emit.error('input is not valid UTF-8 text: %s' % e)
